@@ -53,7 +53,7 @@ theorem notify_pos (g : G) (w : WEvent) (h : w.rev ≠ 0) : g.notify w = { g wit
 /-- A guarded update whose expected revision is not below the revision it is dealt (equal: it names a version nobody has written yet and would overwrite itself): rejected in its first
 step, the revision reported (invalid) to the sequencer. -/
 theorem run_update_drift (g : G) (id : Nat) (k v : Bytes) (exp : Nat)
-    (hfree : g.client id = none) (hexp : g.dealt + 1 ≤ exp) :
+    (hfree : g.client id = none) (hwf : g.windowFull = false) (hexp : g.dealt + 1 ≤ exp) :
     run g [.begin id (.update k v exp), .step id .none] =
       { g with dealt := g.dealt + 1, slots := g.slots ++ [mkW (g.dealt + 1) exp false .put k v],
                done := g.done ++ [{ id := id, kind := .update k v exp, res := .error .drift, rev := g.dealt + 1,
@@ -63,7 +63,9 @@ theorem run_update_drift (g : G) (id : Nat) (k v : Bytes) (exp : Nat)
   show act (act g (.begin id (.update k v exp))) (.step id .none) = _
   rw [act_begin_free g id _ hfree, act_step_of _ id _ _ (client_snoc_free g _ hfree)]
   have e0 : (exp == 0) = false := by simp; omega
-  simp only [stepClient, e0, hexp, if_true, Bool.false_eq_true, if_false]
+  have hwf' : windowFullAt g.cfg g.dealt g.committed = false := hwf
+  simp only [stepClient, stepClientCore, dealSite, G.windowFull, hwf', Bool.and_false, e0, hexp, if_true,
+    Bool.false_eq_true, if_false]
   rw [notify_pos _ _ (by simp [mkW])]
   simp only [G.finish]
   rw [filter_free g id hfree _ rfl]
@@ -71,7 +73,7 @@ theorem run_update_drift (g : G) (id : Nat) (k v : Bytes) (exp : Nat)
 
 /-- Same for a guarded delete of an existing key (read, then deal, then reject). -/
 theorem run_delete_drift (g : G) (id : Nat) (k : Bytes) (exp : Nat)
-    (hfree : g.client id = none) (hexp : g.dealt + 1 ≤ exp) (v : Bytes) (m : Nat)
+    (hfree : g.client id = none) (hwf : g.windowFull = false) (hexp : g.dealt + 1 ≤ exp) (v : Bytes) (m : Nat)
     (hfound : bget g.cfg g.store k 0 = .found v m) :
     run g [.begin id (.delete k exp), .step id .none, .step id .none] =
       { g with dealt := g.dealt + 1, slots := g.slots ++ [mkW (g.dealt + 1) m false .delete k v],
@@ -84,12 +86,14 @@ theorem run_delete_drift (g : G) (id : Nat) (k : Bytes) (exp : Nat)
   rw [act_step_of { g with clients := g.clients ++ [{ id := id, kind := .delete k exp, pc := .start, beginDealt := g.dealt }],
                            begins := (id, g.wlog.length) :: g.begins }
     id .none _ (client_snoc_free g _ hfree)]
-  simp only [stepClient, hfound, G.setClient]
+  have hwf' : windowFullAt g.cfg g.dealt g.committed = false := hwf
+  simp only [stepClient, stepClientCore, dealSite, Bool.false_and, Bool.false_eq_true, if_false, hfound, G.setClient]
   rw [map_free g id hfree _ _ rfl]
   rw [act_step_of _ id _ _ (client_snoc_free g
     { id := id, kind := .delete k exp, pc := .deleteDeal (some (v, m)), beginDealt := g.dealt } hfree)]
   have e0 : (decide (exp > 0) && decide (g.dealt + 1 ≤ exp)) = true := by simp; omega
-  simp only [stepClient, e0, if_true]
+  simp only [stepClient, stepClientCore, dealSite, G.windowFull, hwf', Bool.and_false, Bool.false_eq_true, if_false,
+    e0, if_true]
   rw [notify_pos _ _ (by simp [mkW])]
   simp only [G.finish]
   rw [filter_free g id hfree _ rfl]
@@ -97,7 +101,7 @@ theorem run_delete_drift (g : G) (id : Nat) (k : Bytes) (exp : Nat)
 
 /-- A create of a key without index record, run without faults: succeeds at the next revision. -/
 theorem run_create_fresh (g : G) (id : Nat) (k v : Bytes) (hfree : g.client id = none)
-    (hfresh : g.store.get (idxKey k) = none) :
+    (hwf : g.windowFull = false) (hfresh : g.store.get (idxKey k) = none) :
     run g [.begin id (.create k v), .step id .none, .step id .none] =
       { g with dealt := g.dealt + 1,
                store := (g.store.put (idxKey k) (be8 (g.dealt + 1))).put (encode k (g.dealt + 1)) v,
@@ -113,11 +117,14 @@ theorem run_create_fresh (g : G) (id : Nat) (k v : Bytes) (hfree : g.client id =
   rw [act_step_of { g with clients := g.clients ++ [{ id := id, kind := .create k v, pc := .start, beginDealt := g.dealt }],
                            begins := (id, g.wlog.length) :: g.begins }
     id .none _ (client_snoc_free g _ hfree)]
-  simp only [stepClient, G.setClient]
+  have hwf' : windowFullAt g.cfg g.dealt g.committed = false := hwf
+  simp only [stepClient, stepClientCore, dealSite, G.windowFull, hwf', Bool.and_false, Bool.false_eq_true, if_false,
+    G.setClient]
   rw [map_free g id hfree _ _ rfl]
   rw [act_step_of _ id _ _ (client_snoc_free { g with dealt := g.dealt + 1 }
     { id := id, kind := .create k v, pc := .createCommit (g.dealt + 1), beginDealt := g.dealt } hfree)]
-  simp only [stepClient, createOps, doCommit, commit, applyOps, applyOp, hfresh, applied, G.logWrite, finishCreate,
+  simp only [stepClient, stepClientCore, dealSite, Bool.false_and, Bool.false_eq_true, if_false, createOps, doCommit,
+    commit, applyOps, applyOp, hfresh, applied, G.logWrite, finishCreate,
     beq_self_eq_true, Bool.true_or, if_true]
   rw [notify_pos _ _ (by simp [mkW])]
   simp only [G.finish]
@@ -253,6 +260,7 @@ theorem stepClient_sorted (g : G) (c : Client) (f : Fault) (hs : g.store.Sorted)
     split <;> simpa using h
   · intros; split <;> exact hs
   · exact hs
+  · intros; exact hs
 
 theorem stepRetryRead_sorted (g : G) (hs : g.store.Sorted) : (stepRetryRead g).store.Sorted := by
   apply stepRetryRead_cases (P := fun g' => g'.store.Sorted) <;> intros <;> exact hs
@@ -352,7 +360,7 @@ theorem getInternal_top (cfg : Cfg) {store : Store} (hs : store.Sorted) {R : Nat
 /-! ### a create + read of a fresh key after an arbitrary reachable quiescent state -/
 
 theorem probe_serves {g0 g : G} (h0 : C02.Init g0) (hs : C02.StoreOK g0) (hr : Reachable g0 g)
-    (hq : g.clients = []) (hp : g.retryPc = none) (hb : g.dealt + 1 < 2 ^ 64)
+    (hq : g.clients = []) (hp : g.retryPc = none) (hb : g.dealt + 1 < 2 ^ 64) (hwf : g.windowFull = false)
     (hal : ∀ kv ∈ g.store, ∃ k' r, kv.1 = encode k' r ∧ Alphabet k')
     (id : Nat) (k v : Bytes) (hk : Alphabet k) (hv : v ≠ tombstone)
     (hfresh : g.store.get (idxKey k) = none) :
@@ -362,7 +370,7 @@ theorem probe_serves {g0 g : G} (h0 : C02.Init g0) (hs : C02.StoreOK g0) (hr : R
     bget g1.cfg g1.store k 0 = .found v (g.dealt + 1) := by
   intro g1
   have hfree : g.client id = none := by simp [G.client, hq]
-  have e3 := run_create_fresh g id k v hfree hfresh
+  have e3 := run_create_fresh g id k v hfree hwf hfresh
   generalize hg3 : run g [.begin id (.create k v), .step id .none, .step id .none] = g3 at e3
   have hg1 : g1 = run g3 (List.replicate (g.dealt + 1 - g.committed) Action.seq) := by
     show run g _ = _
@@ -575,6 +583,8 @@ theorem AlphaInv.stepClient {g : G} (h : AlphaInv g) {c : Client} (hc : c ∈ g.
     · exact ha.finish ..
   · intros; split <;> exact h.finish ..
   · exact h
+  · intro _ _
+    exact ⟨fun x hx => h.cl x (List.mem_filter.mp hx).1, h.sl, h.rq, h.st, h.rp⟩
 
 theorem AlphaInv.stepSeq {g : G} (h : AlphaInv g) : AlphaInv (stepSeq g) := by
   unfold KB.stepSeq
@@ -597,13 +607,14 @@ theorem AlphaInv.stepRetryRead {g : G} (h : AlphaInv g) : AlphaInv (stepRetryRea
   · intros; exact h
   · intro w rest _ hq _
     exact ⟨h.cl, h.sl, fun q hqm => h.rq q (by rw [hq]; exact List.mem_cons_of_mem _ hqm), h.st, h.rp⟩
-  · intro w rest val _ hq _ _
+  · intro w rest val _ hq _ _ _
     refine ⟨h.cl, h.sl, h.rq, h.st, ?_⟩
     intro p hp
     have hp' : some ({ w := w, rev := g.dealt + 1, val := val } : RetryPc) = some p := hp
     simp only [Option.some.injEq] at hp'
     subst hp'
     exact h.rq w (by rw [hq]; exact List.mem_cons_self ..)
+  · intros; exact h
 
 theorem AlphaInv.stepRetryCommit {g : G} (h : AlphaInv g) (f : Fault) : AlphaInv (stepRetryCommit g f) := by
   apply stepRetryCommit_cases (P := AlphaInv)
